@@ -63,6 +63,9 @@ def _ieval(n, env, fn=None, depth=0):
     if k == "DeclRefExpr":
         if n.d["d"] in env:
             return env[n.d["d"]]
+        lz0 = env.get("__inits__")
+        if lz0 and n.d["d"] in lz0:
+            return _clamp(ieval(lz0[n.d["d"]], env, fn, depth + 1), n)
         bm = n.fn.bind_map() if hasattr(n, "fn") and n.fn is not None else {}
         if n.d["d"] in bm:
             # a parameter of a folded helper: the range of its argument
@@ -216,7 +219,7 @@ def check_shifts(ctx, rule, fn, domains, instance_prefix=None, only=None):
     from . import rules_atomic as RA
     inits = RA.local_inits(fn)
     lz = {}
-    for did, init in inits.items():
+    for did, init in list(inits.items()) + list(RA.bound_value_params(fn).items()):
         if did in env0 or RA._reassigned(fn, did):
             continue
         if init.get("bits") or init.strip().get("bits"):
@@ -269,7 +272,7 @@ def check_no_wrap_adds(ctx, rule, fn, domains, label=None, touching=None, signed
     env0 = dict(domains)
     inits = RA.local_inits(fn)
     lz = {}
-    for did, init in inits.items():
+    for did, init in list(inits.items()) + list(RA.bound_value_params(fn).items()):
         if did in env0 or RA._reassigned(fn, did):
             continue
         if init.get("bits") or init.strip().get("bits"):
